@@ -76,6 +76,75 @@ impl<'src> HInput<'src> for MappedStream {
     }
 }
 
+/// a counting, lower-bound-0 iterator: records every item it yields (index into the source) in a thread-local log
+pub struct CountIter {
+    pub items: std::vec::IntoIter<char>,
+    pub next_idx: usize,
+}
+thread_local! {
+    pub static PULLS: std::cell::RefCell<Vec<usize>> = std::cell::RefCell::new(Vec::new());
+}
+impl Iterator for CountIter {
+    type Item = char;
+    fn next(&mut self) -> Option<char> {
+        let c = self.items.next()?;
+        PULLS.with(|p| p.borrow_mut().push(self.next_idx));
+        self.next_idx += 1;
+        Some(c)
+    }
+    // deliberately the default `size_hint` = (0, None): "no lower bound" must not be read as "exhausted"
+}
+pub type CountStream = chumsky::input::Stream<CountIter>;
+pub type BoxedCharStream = chumsky::input::BoxedStream<'static, char>;
+pub type IoBytes = chumsky::input::IoInput<std::io::Cursor<Vec<u8>>>;
+pub type MappedIo = chumsky::input::MappedInput<char, Sp, IoBytes, fn(u8) -> (char, Sp)>;
+pub fn io_pair(b: u8) -> (char, Sp) {
+    (b as char, Sp::from(b as usize..b as usize + 1))
+}
+pub type WithCtx<'src> = chumsky::input::WithContext<Sp, &'src [char]>;
+pub type MSpanSlice<'src> = chumsky::input::MappedSpan<Sp, &'src [char], fn(Sp) -> Sp>;
+pub fn shift_span(s: Sp) -> Sp {
+    Sp::from(s.start + 1000..s.end + 1000)
+}
+
+macro_rules! no_slice_input {
+    ($t:ty) => {
+        impl<'src> HInput<'src> for $t {
+            fn to_slice<E: HErr<'src, Self>>(_p: BP<'src, Self, E>, _base: usize) -> BP<'src, Self, E> {
+                panic!("harness: to_slice unsupported for this input kind")
+            }
+        }
+    };
+}
+no_slice_input!(CountStream);
+no_slice_input!(BoxedCharStream);
+no_slice_input!(MappedIo);
+no_slice_input!(MSpanSlice<'src>);
+
+impl<'src> HInput<'src> for WithCtx<'src> {
+    fn to_slice<E: HErr<'src, Self>>(p: BP<'src, Self, E>, base: usize) -> BP<'src, Self, E> {
+        p.to_slice()
+            .map(move |s: &'src [char]| {
+                let base = base + crate::run::BASE.with(|b| b.get());
+                let off = (s.as_ptr() as usize - base) / core::mem::size_of::<char>();
+                Val::Slice(off, off + s.len())
+            })
+            .boxed()
+    }
+}
+
+impl<'src, const N: usize> HInput<'src> for &'src [char; N] {
+    fn to_slice<E: HErr<'src, Self>>(p: BP<'src, Self, E>, base: usize) -> BP<'src, Self, E> {
+        p.to_slice()
+            .map(move |s: &'src [char]| {
+                let base = base + crate::run::BASE.with(|b| b.get());
+                let off = (s.as_ptr() as usize - base) / core::mem::size_of::<char>();
+                Val::Slice(off, off + s.len())
+            })
+            .boxed()
+    }
+}
+
 pub struct Cx<'src, I: HInput<'src>, E: HErr<'src, I>> {
     pub defs: Vec<BP<'src, I, E>>,
     pub base: usize,
